@@ -270,7 +270,7 @@ class Crate:
                     own.add(p)
                     changed = True
                     continue
-                cs = callers.get(p)
+                cs = set(callers.get(p) or ()) - {p}        # recursion does not make a function somebody else's
                 if cs and all(c in own for c in cs) and b.raw.get("vis", "") != "pub" and not b.raw.get("impl_trait"):
                     own.add(p)
                     changed = True
